@@ -13,22 +13,39 @@ fn exact(f: u128, r: u128, q: u128) -> (u128, bool) {
     let v = (2 * n + q) / (2 * q);
     (v, (2 * n) % (2 * q) == q)
 }
+fn inv_mod(a: u128, m: u128) -> Option<u128> {
+    let (mut old_r, mut r) = (a as i128, m as i128);
+    let (mut old_s, mut s) = (1i128, 0i128);
+    while r != 0 {
+        let q = old_r / r;
+        let t = old_r - q * r; old_r = r; r = t;
+        let t = old_s - q * s; old_s = s; s = t;
+    }
+    if old_r != 1 { return None; }
+    Some(((old_s % m as i128 + m as i128) % m as i128) as u128)
+}
 fn main() {
     let mut s: u64 = 12345;
     let mut next = || { s = s.wrapping_mul(6364136223846793005).wrapping_add(1442695040888963407); s >> 11 };
     let mut found = 0;
-    for _ in 0..200_000_000u64 {
-        let q = 1_000_000_000_000u128 + (next() as u128 % 9_000_000_000_000u128);
-        let f = (q * 33 + 50) / 100; // rate 0.33 half up
-        let r = next() as u128 % q;
-        if f.checked_mul(r).is_none() { continue; }
-        let (v, tie) = exact(f, r, q);
-        if let Some(c) = contract_formula(f, r, q) {
-            if c != v && !(tie && c + 1 == v) {
-                println!("Q={} F={} r={} exact={} tie={} contract={}", q, f, r, v, tie, c);
-                found += 1;
-                if found > 5 { break; }
+    for _ in 0..2_000_000u64 {
+        let q = 1_000_000_000_000_000u128 + (next() as u128 % 9_000_000_000_000_000u128);
+        let f = (q * 33 + 50) / 100;
+        let inv = match inv_mod(f % q, q) { Some(i) => i, None => continue };
+        for d in [1u128, 2, 3, 5, 8, 13, 21, 34, 55, 89, 144, 1000, 10000, 100000] {
+            for sign in [0, 1] {
+                let t = if sign == 0 { q / 2 + d } else { q / 2 - d };
+                let r = (t % q) * inv % q;
+                if r == 0 { continue; }
+                let (v, tie) = exact(f, r, q);
+                if let Some(c) = contract_formula(f, r, q) {
+                    if c != v && !(tie && c + 1 == v) {
+                        println!("Q={} F={} r={} exact={} tie={} contract={}", q, f, r, v, tie, c);
+                        found += 1;
+                    }
+                }
             }
         }
+        if found > 8 { break; }
     }
 }
